@@ -295,7 +295,7 @@ def evaluate(facts, n, conc):
     env = ("variant", "{coroutine}", ((cap if cap is not None else 0, ("refmut", SELF)),))
     cands = tuple(("const", "v4#%d" % i) for i in range(n))
     st = {1: env, SELF: this, -QUEUE: ("list", cands), -TASKS: ("list", ()), -TRACE: ("list", ()), -901: ("const", str(ei[0])), -1000: ("const", "10")}
-    ap = AbsPaths(f, limit=60000, raw_oracles=EXTRA_RAW + seqmodel.RAW_ORACLES, oracles=[INT_CMP, VALUE_EQ])
+    ap = AbsPaths(f, limit=60000, raw_oracles=EXTRA_RAW + seqmodel.RAW_ORACLES + seqmodel.OPTION_ORACLES, oracles=[INT_CMP, VALUE_EQ])
     outs = ap.outcomes(state=st, extra_keys=(-TRACE, -QUEUE, -TASKS))
     res = set()
     for (rv, _, (trace, queue, tasks)) in outs:
